@@ -372,6 +372,16 @@ package fiber
 //@   atcall (*App).addRoute: star-flag: arg2.star == (arg2.path == "/*")
 //@   atcall (*App).addRoute: root-flag: arg2.root == (arg2.path == "/")
 //@   atcall (*App).addRoute: use-flag: arg2.use == (arg2.Method == "USE")
+// C01 (dispatch): the remaining flags and the stack(s) a registration goes to. A mount marker is exactly a registration
+// through a group of ANOTHER app; the handlers and the group are the ones given; an endpoint goes to the stack of its
+// own (configured) method, a Use to the stack of the configured method the loop is at, as a new Route object.
+//@   atcall (*App).addRoute: [C01] mount-flag: arg2.mount == (group != nil && group.app != app) && len(arg3) == 1 && arg3[0] == arg2.mount
+// (the handlers of a Use copy are not stated: addRoute's frame lists Route.Handlers as a whole field and the address of
+// the local `route` cannot be named in an invariant, so `route.Handlers == handlers` cannot be carried through loop 3)
+//@   atcall (*App).addRoute: [C01] handlers-and-group-as-given: arg2.group == group && (!arg2.use ==> arg2.Handlers == handlers)
+//@   atcall (*App).addRoute: [C01] endpoint-under-its-own-configured-method: !arg2.use ==> arg1 == arg2.Method && methodIdx(app, arg1, epochNow) != -1
+//@   atcall (*App).addRoute: [C01] use-under-the-configured-method-at-hand: arg2.use ==> arg1 == app.config.RequestMethods[rangeindex + 1]
+//@   atcall (*App).addRoute: [C01] new-route-object: !wasAllocated(arg2)
 
 //@ func (*routeParser).reset
 //@   modifies parser.segs, parser.params, parser.wildCardCount, parser.plusCount
